@@ -2,6 +2,7 @@
 from __future__ import annotations
 
 import asyncio
+import collections
 import itertools
 import json
 
@@ -22,12 +23,24 @@ RULE = ('one case = one dispatcher configuration (a stack of 0..3 middlewares ov
         '(success, each failure class, notifications, a mixed batch, rejected documents) x {sync, async, async with suspending '
         'middlewares}. Instrumented middlewares / handlers write an event log (enter/exit per middleware and element, handler '
         'key / index / incoming code, the request and context objects they were given); the per-element event sequence, the '
-        'method executions and the response sent are compared with a straight-line model of the statement. Distinct = '
-        'distinct (stack, table, document, dispatcher flavour).')
+        'method executions and the response sent are compared with a straight-line model of the statement. Also walked, over '
+        'narrower products: (a) handler tables in which a generic / per-code handler at the first, a middle or the last position '
+        'of its list returns an error object whose TRUTH VALUE IS FALSE (JsonRpcError subclasses with __len__ -> 0 or __bool__ -> '
+        'False; a truthy sized error as control), sync and async, and a middleware that answers with such an error: every handler '
+        'must be handed what the previous one returned (class, code, message, data are compared) and the last returned error is '
+        'sent; (b) the `middlewares` argument (declared Iterable) handed over as a generator expression, filter / map / iter / '
+        'reversed / itertools.chain object (one-shot), tuple, deque, dict keys view or a bare Iterable object, to the core '
+        'constructors and to the integration entry points that take the dispatcher\'s arguments (aiohttp Application(...) and '
+        'add_endpoint(...), flask JsonRPC(...) and add_endpoint(...), werkzeug JsonRPC(...); two of them also reached over HTTP), '
+        'with handler lists that are plain lists or list subclasses. Distinct = distinct (stack, table, document, dispatcher '
+        'flavour, container kinds).')
 ASSUMPTIONS = [
     'probe middlewares and handlers do not raise; short-circuiting middlewares return UNSET for notifications',
     'handlers run for failing notifications as for failing calls (the statement does not exempt them)',
     'events of different batch elements may interleave; only the per-element sequences are compared',
+    'handler lists are declared List, not Iterable: they are handed over as lists or list subclasses only (a one-shot iterable there '
+    'is outside the declared interface and is not generated); an iterator that can be walked only once is taken to be a legal value of the `middlewares` parameter (declared Iterable)',
+    'the second element of dispatch()\'s return value (the tuple of error codes) is not judged here, also not for falsy error objects',
 ]
 SHARDS = {'quick': 8, 'thorough': 16}
 TIMEOUT = {'quick': 400, 'thorough': 2400}
@@ -41,12 +54,36 @@ MW_KINDS = ['P', 'S', 'Q', 'R', 'A']     # A = answers every request itself, not
 # E = refuses every call itself with an ERROR response that carries the request's id and a protocol-level code
 #     (-32600 / -32700 by stack index): an access / policy layer; the chain's response is sent as it is
 EXTRA_MW_KINDS = ['U', 'E']
+# F = like E, but the error object of the response it answers with is FALSY (a JsonRpcError subclass whose __bool__ says False):
+#     what the chain returns is what is sent, whatever the truth value of the objects inside it
+NARROW_MW_KINDS = ['F']
 E_CODES = [-32600, -32700]
 TABLES = ['none', 'generic', 'per-code', 'both', 'two-per-key', 'replace-generic', 'replace-per-code', 'annotate', 'same-callable',
           'codes-declared-before-generic', 'translate-to-protocol-codes', 'handlers-for-rejection-codes']
+# handler tables in which a handler RETURNS AN ERROR OBJECT WITH AN UNUSUAL TRUTH VALUE (a JsonRpcError subclass that is a sized
+# collection of its field problems and currently has none: __len__ -> 0; one whose __bool__ says False; a truthy sized one as the
+# control), generic and per-code, at the first / a middle / the last position of its list. Walked over a narrower set of stacks.
+FALSY_TABLES = ['falsy-error-generic-only', 'falsy-error-per-code-only', 'falsy-error-first-of-list', 'falsy-error-middle-of-list',
+                'falsy-error-last-of-list', 'falsy-error-from-every-handler', 'sized-error-control']
+# what the `middlewares` argument (declared Iterable) is handed over as; the first six can be walked ONCE only
+MW_CONTAINERS = ['generator', 'filter', 'map', 'iter', 'reversed', 'chain', 'tuple', 'deque', 'dict-keys', 'iterable-object']
+ONE_SHOT = ('generator', 'filter', 'map', 'iter', 'reversed', 'chain')
+# entry points that take the dispatcher's arguments: the core constructors and the integration objects / their add_endpoint()
+CONTAINER_ENTRIES = ['sync', 'async', 'async-suspending', 'flask-application', 'flask-endpoint', 'werkzeug-application',
+                     'aiohttp-application', 'aiohttp-endpoint']
+CONTAINER_ENTRIES_HTTP = ['aiohttp-application-http', 'aiohttp-http-mounted']
 FLOORS = {'*': {**{f'mw:{k}:depth{d}': 20 for k in MW_KINDS + EXTRA_MW_KINDS for d in range(3)},
-                **{f'table:{t}:failing': 20 for t in TABLES if t != 'none'},
-                **{f'table:{t}:batch': 5 for t in TABLES}, **{f'table:{t}:notification': 5 for t in TABLES},
+                **{f'table:{t}:failing': 20 for t in TABLES + FALSY_TABLES if t != 'none'},
+                **{f'table:{t}:batch': 5 for t in TABLES + FALSY_TABLES}, **{f'table:{t}:notification': 5 for t in TABLES + FALSY_TABLES},
+                'handler-returns-a-falsy-error': 1000, 'falsy-error-is-handed-to-a-later-handler': 500, 'falsy-error-is-the-one-sent': 300,
+                'falsy-error-returned-by-a-generic-handler': 300, 'falsy-error-returned-by-a-per-code-handler': 300,
+                'falsy-error-returned-by-an-async-handler': 300, 'falsy-error-returned-by-a-sync-handler': 100,
+                'middleware-answers-a-call-with-a-falsy-error': 100,
+                **{f'middlewares-handed-over-as:{c}': 100 for c in MW_CONTAINERS},
+                **{f'non-list-middlewares-through:{e}': 100 for e in CONTAINER_ENTRIES},
+                **{f'non-list-middlewares-through:{e}': 10 for e in CONTAINER_ENTRIES_HTTP},
+                'one-shot-middlewares:short-circuit-answer-expected': 100, 'handler-lists-handed-over-as:list-subclass': 100,
+                'flavour:flask-application': 100, 'flavour:aiohttp-application': 100, 'flavour:werkzeug-application': 100,
                 'flavour:sync': 500, 'flavour:async': 500, 'flavour:async-suspending': 500, 'flavour:async-sequential': 500, 'flavour:async-awaitables': 500,
                 'flavour:flask-endpoint': 100, 'flavour:aiohttp-endpoint': 100, 'flavour:aiohttp-http-mounted': 40, 'flavour:sync-own-response-class': 100,
                 'flavour:async-own-response-class': 100, 'flavour:async-dict-context': 100, 'flavour:sync-dict-context': 100, 'rejected-documents': 100,
@@ -60,6 +97,42 @@ def tok(request):
     if request is None:
         return 'no-request'         # (a hook called without a request: recorded, the event checks then say what is wrong)
     return request.id if request.id is not None else f'n:{request.method}'
+
+
+class SizedError(JsonRpcError):
+    """an aggregated validation error: a sized collection of its field problems (falsy while it has none)"""
+    code = 4220
+    message = 'Unprocessable request'
+
+    def __init__(self, *fields):
+        super().__init__(data=list(fields))
+
+    def __len__(self):
+        return len(self.data)
+
+    def __iter__(self):
+        return iter(self.data)
+
+
+class QuietError(JsonRpcError):
+    """an error object whose truth value is False"""
+
+    def __bool__(self):
+        return False
+
+
+class WithheldError(JsonRpcError):
+    """details withheld: no data member at all, length 0"""
+
+    def __len__(self):
+        return 0
+
+
+def describe(error):
+    """what an error object says about itself (read without asking for its truth value)"""
+    data = getattr(error, 'data', None)
+    return (type(error).__name__, getattr(error, 'code', None), getattr(error, 'message', None),
+            world.ABSENT if isinstance(data, pjrpc.common.UnsetType) else repr(data))
 
 
 def make_mw(kind, idx, flavour):
@@ -81,6 +154,9 @@ def make_mw(kind, idx, flavour):
         if kind == 'E':
             return UNSET if request.id is None else v20.Response(
                 id=request.id, error=JsonRpcError(code=E_CODES[idx % 2], message='refused by policy', data=['refused', idx]))
+        if kind == 'F':
+            return UNSET if request.id is None else v20.Response(
+                id=request.id, error=QuietError(code=E_CODES[idx % 2], message='refused quietly', data=['quiet', idx]))
         if kind == 'A':
             return v20.Response(id=request.id, result=['answered', idx])       # "whatever the chain returns is what is sent"
         return UNSET if request.id is None else v20.Response(id=request.id, result=['short', idx])
@@ -93,7 +169,7 @@ def make_mw(kind, idx, flavour):
     if flavour == 'sync':
         def mw(request, context, handler):
             pre(request, context)
-            if kind in ('S', 'A', 'U', 'E'):
+            if kind in ('S', 'A', 'U', 'E', 'F'):
                 out = short(request)
             else:
                 out = rewrite_response(handler(rewrite_request(request), context))
@@ -112,7 +188,7 @@ def make_mw(kind, idx, flavour):
         pre(request, context)
         if suspend:
             await asyncio.sleep(0)
-        if kind in ('S', 'A', 'U', 'E'):
+        if kind in ('S', 'A', 'U', 'E', 'F'):
             out = short(request)
         else:
             out = rewrite_response(await handler(rewrite_request(request), context))
@@ -135,15 +211,28 @@ class Awaitable:
 
 def make_handler(key, j, action, flavour):
     """error handler registered under `key` at list position j"""
-    def work(request, context, error):
-        EVENTS.append(('handler', key, j, tok(request), error.code, request, context))
+    def produce(error):
         if action == 'identity':
             return error
         if action == 'replace':
             return JsonRpcError(code=5000 + (0 if key is None else 1) * 100 + j, message=f'replaced by {key}:{j}', data=error.code)
         if action == 'to-protocol-code':
             return JsonRpcError(code=E_CODES[(j or 0) % 2], message='translated', data=error.code)
+        if action == 'falsy-sized':
+            return SizedError()                                      # no field problems: len() == 0; code and message of its class
+        if action == 'sized-nonempty':
+            return SizedError('f1', 'f2')                            # the control: the same class, truthy
+        if action == 'falsy-bool':
+            return QuietError(code=error.code, message=error.message, data={'quiet': [key, j]})
+        if action == 'falsy-withheld':
+            return WithheldError(code=error.code, message='details withheld')
         return JsonRpcError(code=error.code, message=error.message, data={'seen_by': [key, j]})
+
+    def work(request, context, error):
+        out = produce(error)
+        EVENTS.append(('handler', key, j, tok(request), error.code, request, context, describe(error), describe(out),
+                       'truthy' if out else 'falsy'))
+        return out
     if flavour == 'sync':
         return work
 
@@ -200,7 +289,27 @@ def table_spec(name):
     if name == 'same-callable':
         # one handler object listed generically and (twice) per code: every listed entry applies, in list order
         return {None: ['shared'], **{c: ['annotate', 'shared', 'shared'] for c in RAISED_CODES}}
+    # ---- handlers returning error objects with an unusual truth value (4220 = the code the sized error brings along: handlers
+    #      listed under it never run, nothing is RAISED with that code)
+    if name == 'falsy-error-generic-only':
+        return {None: ['falsy-sized']}
+    if name == 'falsy-error-per-code-only':
+        return {c: ['falsy-bool'] for c in RAISED_CODES}
+    if name == 'falsy-error-first-of-list':
+        return {None: ['falsy-bool', 'annotate'], 4220: ['replace'], **{c: ['falsy-sized', 'identity'] for c in RAISED_CODES}}
+    if name == 'falsy-error-middle-of-list':
+        return {None: ['annotate', 'falsy-sized', 'identity'], **{c: ['identity', 'falsy-withheld', 'annotate'] for c in RAISED_CODES}}
+    if name == 'falsy-error-last-of-list':
+        return {None: ['annotate', 'falsy-withheld'], 4220: ['replace'], **{c: ['annotate', 'falsy-sized'] for c in RAISED_CODES}}
+    if name == 'falsy-error-from-every-handler':
+        return {None: ['falsy-sized', 'falsy-bool'], **{c: ['falsy-withheld', 'falsy-bool', 'falsy-sized'] for c in RAISED_CODES}}
+    if name == 'sized-error-control':
+        return {None: ['sized-nonempty', 'identity'], 4220: ['replace'], **{c: ['annotate', 'sized-nonempty'] for c in RAISED_CODES}}
+    assert name == 'annotate', name
     return {None: ['annotate'], **{c: ['annotate', 'annotate'] for c in RAISED_CODES}}
+
+
+FALSY_ACTIONS = {'falsy-sized': 'falsy', 'falsy-bool': 'falsy', 'falsy-withheld': 'falsy'}
 
 
 def apply_action(action, key, j, err):
@@ -208,6 +317,14 @@ def apply_action(action, key, j, err):
     code, message, data = err
     if action == 'identity':
         return err
+    if action == 'falsy-sized':
+        return (4220, 'Unprocessable request', [])
+    if action == 'sized-nonempty':
+        return (4220, 'Unprocessable request', ['f1', 'f2'])
+    if action == 'falsy-bool':
+        return (code, message, {'quiet': [key, j]})
+    if action == 'falsy-withheld':
+        return (code, 'details withheld', model.ABSENT_MEMBER)
     if action == 'replace':
         return (5000 + (0 if key is None else 1) * 100 + j, f'replaced by {key}:{j}', code)
     if action == 'to-protocol-code':
@@ -253,7 +370,7 @@ def expected_element(el, stack, table, ctx_token):
     short_at = None
     for i, k in enumerate(stack):
         events.append(('enter', i, t))
-        if k in ('S', 'A', 'U', 'E'):
+        if k in ('S', 'A', 'U', 'E', 'F'):
             short_at = i
             break
         if k == 'Q' and cur['method'] == 'ok' and isinstance(cur.get('params'), list) and cur['params']:
@@ -264,6 +381,9 @@ def expected_element(el, stack, table, ctx_token):
         depth = short_at
     elif short_at is not None and stack[short_at] == 'E':
         resp = None if is_notif else model.err(el['id'], E_CODES[short_at % 2], 'refused by policy', ['refused', short_at])
+        depth = short_at
+    elif short_at is not None and stack[short_at] == 'F':
+        resp = None if is_notif else model.err(el['id'], E_CODES[short_at % 2], 'refused quietly', ['quiet', short_at])
         depth = short_at
     elif short_at is not None and stack[short_at] == 'A':
         resp = {'jsonrpc': '2.0', 'id': el.get('id'), 'result': ['answered', short_at]}
@@ -299,6 +419,69 @@ def expected_element(el, stack, table, ctx_token):
         if stack[i] == 'R' and resp is not None and 'result' in resp and i != short_at:
             resp = {'jsonrpc': '2.0', 'id': resp['id'], 'result': [f'r{i}', resp['result']]}
     return events, resp, executions
+
+
+class IterableObject:
+    """an Iterable and nothing more: no length, no indexing; every iter() starts over"""
+
+    def __init__(self, items):
+        self._items = list(items)
+
+    def __iter__(self):
+        return iter(self._items)
+
+
+class HandlerList(list):
+    """a list (the declared type of a handler list) of the application's own making"""
+
+
+def in_container(items, kind):
+    """the declared stack `items`, handed over as another kind of Iterable (the declared order is the iteration order)"""
+    items = list(items)
+    if kind == 'list':
+        return items
+    if kind == 'generator':
+        return (m for m in items)                                        # e.g. (mw for option, mw in candidates if enabled[option])
+    if kind == 'filter':
+        return filter(None, [None] + [x for m in items for x in (m, None)])
+    if kind == 'map':
+        return map(lambda m: m, items)
+    if kind == 'iter':
+        return iter(items)
+    if kind == 'reversed':
+        return reversed(items[::-1])
+    if kind == 'chain':
+        return itertools.chain(items[:1], items[1:])
+    if kind == 'tuple':
+        return tuple(items)
+    if kind == 'deque':
+        return collections.deque(items)
+    if kind == 'dict-keys':
+        return dict.fromkeys(items).keys()                                 # (the probe middlewares of a stack are distinct objects)
+    if kind == 'iterable-object':
+        return IterableObject(items)
+    raise ValueError(kind)
+
+
+def application_factory(flavour):
+    """the dispatcher OF an integration object, configured through that object's constructor (which takes the dispatcher's
+    arguments); with '-http' it is reached the way its clients reach it"""
+    def make(**kwargs):
+        if flavour == 'flask-application':
+            from pjrpc.server.integration import flask as integ
+            return integ.JsonRPC('/rpc', **kwargs).dispatcher
+        if flavour == 'werkzeug-application':
+            from pjrpc.server.integration import werkzeug as integ
+            return integ.JsonRPC('/rpc', **kwargs).dispatcher
+        import aiohttp.web
+        from pjrpc.server.integration import aiohttp as integ
+        rpc = integ.Application('/rpc', app=aiohttp.web.Application(), **kwargs)
+        if flavour == 'aiohttp-application-http':
+            outer = aiohttp.web.Application()
+            outer.add_subapp('/svc', rpc.app)
+            return HttpMounted(rpc.dispatcher, outer, '/svc/rpc')
+        return rpc.dispatcher
+    return make
 
 
 def endpoint_factory(flavour):
@@ -385,22 +568,27 @@ class SubBatchResponse(v20.BatchResponse):
 
 def base_flavour(flavour):
     return {'flask-endpoint': 'sync', 'aiohttp-endpoint': 'async', 'aiohttp-http-mounted': 'async', 'sync-own-response-class': 'sync', 'async-own-response-class': 'async',
-            'async-dict-context': 'async', 'sync-dict-context': 'sync'}.get(flavour, flavour)
+            'async-dict-context': 'async', 'sync-dict-context': 'sync', 'flask-application': 'sync', 'werkzeug-application': 'sync',
+            'aiohttp-application': 'async', 'aiohttp-application-http': 'async'}.get(flavour, flavour)
 
 
-def run_case(ctx, stack, table, doc_name, flavour):
+def run_case(ctx, stack, table, doc_name, flavour, mw_container='list', eh_container='list'):
     del EVENTS[:]
     outer = flavour
     flavour = base_flavour(outer)
     is_async = flavour != 'sync'
     tspec = table_spec(table)
-    mws = [make_mw(k, i, flavour) for i, k in enumerate(stack)]
+    mws = in_container([make_mw(k, i, flavour) for i, k in enumerate(stack)], mw_container)
     handlers = make_handlers(tspec, flavour)
+    if eh_container == 'list-subclass':
+        handlers = {key: HandlerList(lst) for key, lst in handlers.items()}
     extra = {'concurrent_batch': False} if flavour == 'async-sequential' else {}
     if outer.endswith('-endpoint'):
         extra['make_dispatcher'] = endpoint_factory(outer)
     if outer == 'aiohttp-http-mounted':
         extra['make_dispatcher'] = http_mounted_factory()
+    if outer.endswith('-application') or outer == 'aiohttp-application-http':
+        extra['make_dispatcher'] = application_factory(outer)
     if outer.endswith('-own-response-class'):
         extra.update(response_class=SubResponse, batch_response=SubBatchResponse)
     w = world.World(is_async, None, middlewares=mws, error_handlers=handlers, **extra)
@@ -409,19 +597,30 @@ def run_case(ctx, stack, table, doc_name, flavour):
     text = doc if isinstance(doc, str) else json.dumps(doc)
     # (a plain dict is a perfectly good context object: the hooks get THAT object, not a copy of it)
     CTX = {'token-holder': 'c12'} if outer.endswith('-dict-context') else world.Context('c12')
-    if outer == 'aiohttp-http-mounted':
+    if outer in ('aiohttp-http-mounted', 'aiohttp-application-http'):
         CTX = ANY_CONTEXT
     o = serverside.observe(w, text, context=CTX)
-    cls = (''.join(stack), table, doc_name, flavour)
-    fam = f'{flavour}:{len(stack)}mw:{table}'
+    cls = (''.join(stack), table, doc_name, flavour, mw_container, eh_container)
+    fam = f'{flavour}:{len(stack)}mw:{table}' + (f':middlewares-as-{mw_container}' if mw_container != 'list' else '')
     ctx.hit('flavour:' + flavour)
     for d, k in enumerate(stack):
         ctx.hit(f'mw:{k}:depth{d}')
+    if mw_container != 'list' and stack:
+        ctx.hit('middlewares-handed-over-as:' + mw_container)
+        ctx.hit('non-list-middlewares-through:' + flavour)
+        if mw_container in ONE_SHOT and any(k in ('S', 'A', 'E', 'F') for k in stack):
+            ctx.hit('one-shot-middlewares:short-circuit-answer-expected')
+    if eh_container != 'list' and tspec:
+        ctx.hit('handler-lists-handed-over-as:' + eh_container)
     log = list(EVENTS)
-    wit = dict(stack=stack, handler_table={str(k): v for k, v in tspec.items()}, document=text, flavour=flavour,
+    # (how the class of a finding is named when the stack was not handed over as a list)
+    how = '' if mw_container == 'list' or not stack else (
+        ':middlewares-handed-over-as-a-one-shot-iterable' if mw_container in ONE_SHOT else ':middlewares-handed-over-as-a-non-list-iterable')
+    wit = dict(stack=stack, middlewares_handed_over_as=mw_container, handler_lists_handed_over_as=eh_container,
+               handler_table={str(k): v for k, v in tspec.items()}, document=text, flavour=flavour,
                returned=o.raw, exception=o.exc, events=[e[:5] if e[0] == 'handler' else e[:3] for e in log], executions=o.calls)
     if o.status == 'exc':
-        ctx.violation(f'dispatch-raises:{type(o.exc).__name__}', fam, cls, **wit)
+        ctx.violation(f'dispatch-raises:{type(o.exc).__name__}' + how, fam, cls, **wit)
         return
     info = serverside.TextInfo(text)
     base = model.expected(info.doc, None)
@@ -457,6 +656,24 @@ def run_case(ctx, stack, table, doc_name, flavour):
             ctx.hit('middleware-returns-UNSET-for-a-call')
         if 'E' in stack and el.get('id') is not None:
             ctx.hit('middleware-answers-a-call-with-a-protocol-level-error')
+        if 'F' in stack and el.get('id') is not None:
+            ctx.hit('middleware-answers-a-call-with-a-falsy-error')
+        # handlers that return an error object whose truth value is False: where in the chain, and what becomes of it
+        hs = [e for e in ev if e[0] == 'handler']
+        current_is_falsy = False
+        for n, e in enumerate(hs):
+            action = 'annotate' if e[1] == 'shared' else tspec[e[1]][e[2]]
+            if action in FALSY_ACTIONS:
+                current_is_falsy = True
+                ctx.hit('handler-returns-a-falsy-error')
+                ctx.hit('falsy-error-returned-by-a-generic-handler' if e[1] is None else 'falsy-error-returned-by-a-per-code-handler')
+                ctx.hit('falsy-error-returned-by-an-async-handler' if is_async else 'falsy-error-returned-by-a-sync-handler')
+                if n + 1 < len(hs):
+                    ctx.hit('falsy-error-is-handed-to-a-later-handler')
+            elif action != 'identity':
+                current_is_falsy = False
+        if current_is_falsy and el.get('id') is not None:
+            ctx.hit('falsy-error-is-the-one-sent')
     if any_failing:
         ctx.hit(f'table:{table}:failing')
     if isinstance(info.doc, list):
@@ -464,11 +681,13 @@ def run_case(ctx, stack, table, doc_name, flavour):
     if any(el.get('id') is None for el in elements):
         ctx.hit(f'table:{table}:notification')
     # ---- per-element event sequences (+ objects handed to middlewares / handlers)
-    got_events = {}
+    got_events, got_handlers = {}, {}
     for e in log:
         t = e[2] if e[0] in ('enter', 'exit') else e[3]
         simple = e[:3] if e[0] in ('enter', 'exit') else e[:5]
         got_events.setdefault(t, []).append(simple)
+        if e[0] == 'handler':
+            got_handlers.setdefault(t, []).append(e)
         if e[0] == 'enter':
             if not isinstance(e[3], v20.Request):
                 ctx.violation('middleware-not-given-the-parsed-request', fam, cls, **wit)
@@ -488,9 +707,9 @@ def run_case(ctx, stack, table, doc_name, flavour):
             wh = [e for e in want if e[0] == 'handler']
             gh = [e for e in got if e[0] == 'handler']
             if n_enter_g != n_enter_w:
-                mech = 'middleware-pass-count-wrong:' + ('none' if n_enter_g == 0 else ('more' if n_enter_g > n_enter_w else 'fewer'))
+                mech = 'middleware-pass-count-wrong:' + ('none' if n_enter_g == 0 else ('more' if n_enter_g > n_enter_w else 'fewer')) + how
             elif [e for e in got if e[0] != 'handler'] != [e for e in want if e[0] != 'handler']:
-                mech = 'middleware-nesting-order-wrong'
+                mech = 'middleware-nesting-order-wrong' + how
             elif not wh and gh:
                 mech = 'handler-ran-for-a-successful-element'
             elif len(gh) != len(wh):
@@ -499,8 +718,20 @@ def run_case(ctx, stack, table, doc_name, flavour):
                 mech = 'handlers-selected-or-ordered-wrongly'
             else:
                 mech = 'handler-did-not-receive-the-previous-handlers-error'
+                first = next(n for n in range(len(gh)) if gh[n] != wh[n])
+                if first and got_handlers[t][first - 1][9] == 'falsy':
+                    mech += ':the-previous-handler-returned-a-falsy-error'
             ctx.violation(mech, fam, cls, element=t, expected_events=want, got_events=got, **wit)
             return
+    # ---- each handler receives the error RETURNED by the previous one (class, code, message, data), whatever kind of object it is
+    for t, hs in got_handlers.items():
+        for n in range(1, len(hs)):
+            if hs[n][7] != hs[n - 1][8]:
+                mech = 'handler-did-not-receive-the-previous-handlers-error'
+                if hs[n - 1][9] == 'falsy':
+                    mech += ':the-previous-handler-returned-a-falsy-error'
+                ctx.violation(mech, fam, cls, element=t, handler=[hs[n][1], hs[n][2]], received=hs[n][7], previous_handler_returned=hs[n - 1][8], **wit)
+                return
     extra = [t for t in got_events if t not in want_events]
     if extra:
         ctx.violation('events-for-an-element-that-was-not-requested', fam, cls, **wit)
@@ -520,7 +751,12 @@ def run_case(ctx, stack, table, doc_name, flavour):
             return
         r = model.match(want_doc, o.doc)
         if r:
-            ctx.violation('response-sent-differs-from-chain-result', fam, cls, expected=model.render(want_doc), difference=r, **wit)
+            mech = 'response-sent-differs-from-chain-result'
+            if any(hs[-1][9] == 'falsy' for hs in got_handlers.values()):
+                mech += ':the-last-returned-error-is-a-falsy-object'
+            elif 'F' in stack:
+                mech += ':a-middleware-answered-with-a-falsy-error'
+            ctx.violation(mech, fam, cls, expected=model.render(want_doc), difference=r, **wit)
             return
     ctx.ok(fam, cls, sample=wit)
 
@@ -553,6 +789,43 @@ def gen(ctx):
                     chosen = [names[(k * 5 + i * 7) % len(names)] for i in range(4)] + ['batch-mixed', names[names.index('batch-one-ok') + k % 4]]
                 for d in dict.fromkeys(chosen):
                     yield 'case', dict(stack=stack, table=table, doc_name=d, flavour=flavour)
+    # ---- handlers returning errors with an unusual truth value (and the middleware that answers with one): every flavour,
+    #      stacks of 0..1 (thorough: 0..2) middlewares plus the F kind at depths 0..2
+    all_flavours = ['sync', 'async', 'async-suspending', 'async-sequential', 'async-awaitables', 'flask-endpoint', 'aiohttp-endpoint',
+                    'flask-application', 'aiohttp-application', 'werkzeug-application']
+    if deep:
+        all_flavours += ['sync-own-response-class', 'async-own-response-class', 'async-dict-context', 'sync-dict-context']
+    narrow = [[]] + [[k] for k in MW_KINDS] + [['F'], ['P', 'F'], ['R', 'F', 'P'], ['Q', 'R', 'F']]
+    if deep:
+        narrow += [list(s_) for s_ in itertools.product(MW_KINDS, repeat=2)] + [['F', 'P'], ['R', 'P', 'F']]
+    for stack in narrow:
+        for table in FALSY_TABLES:
+            for flavour in all_flavours + (['aiohttp-http-mounted', 'aiohttp-application-http'] if not stack else []):
+                http = flavour.endswith('-http') or flavour.endswith('-http-mounted')
+                if 'F' in stack and table not in FALSY_TABLES[:2]:
+                    continue
+                for d in names:
+                    if http and d not in ('call-rpcerr', 'call-unknown', 'batch-mixed', 'notify-exc', 'call-ok'):
+                        continue
+                    yield 'case', dict(stack=stack, table=table, doc_name=d, flavour=flavour)
+    # ---- the middleware stack handed over as something else than a list (one-shot iterables first), at every entry point that
+    #      takes the dispatcher's arguments; half of the cases with handler lists that are list subclasses
+    c_stacks = [['P'], ['S'], ['Q', 'R'], ['P', 'A'], ['R', 'P', 'S'], ['Q', 'P', 'R'], ['E'], ['U', 'P']]
+    c_tables = ['none', 'both', 'two-per-key']
+    c_docs = ['call-ok', 'call-rpcerr', 'notify-ok', 'notify-exc', 'batch-mixed', 'rejected-invalid']
+    if deep:
+        c_stacks = [list(s_) for n in (1, 2) for s_ in itertools.product(MW_KINDS, repeat=n)] + c_stacks[4:]
+        c_tables += ['replace-generic', 'same-callable']
+        c_docs = names
+    for container in MW_CONTAINERS:
+        for flavour in CONTAINER_ENTRIES + CONTAINER_ENTRIES_HTTP:
+            http = flavour in CONTAINER_ENTRIES_HTTP
+            for stack in (c_stacks[:3] if http else c_stacks):
+                for table in (c_tables[1:2] if http else c_tables):
+                    for d in (c_docs[:5:2] if http else c_docs):
+                        k += 1
+                        yield 'case', dict(stack=stack, table=table, doc_name=d, flavour=flavour, mw_container=container,
+                                           eh_container=('list', 'list-subclass')[k % 2])
     ctx.exhaustive['middleware-stacks-0..3-over-4-kinds'] = True
 
 
